@@ -20,6 +20,7 @@ use syn::{
 };
 
 mod derived;
+mod holds;
 mod table;
 
 #[derive(Clone, Debug, PartialEq)]
@@ -4650,6 +4651,53 @@ fn main() {
         let p = out.join("Derived.lean");
         if std::fs::read_to_string(&p).unwrap_or_default() != lean {
             std::fs::write(&p, lean).unwrap();
+        }
+    }
+    // which calls are made while a shared cell is borrowed / locked (holds.rs), from the compiler-expanded source
+    if let Some(path) = a.get(3) {
+        let text = std::fs::read_to_string(path).unwrap_or_default();
+        if let Ok(file) = syn::parse_file(&text) {
+            fn find<'f>(items: &'f [Item], path: &[&str]) -> Option<&'f [Item]> {
+                if path.is_empty() {
+                    return Some(items);
+                }
+                for it in items {
+                    if let Item::Mod(m) = it {
+                        if m.ident == path[0] {
+                            if let Some((_, inner)) = &m.content {
+                                return find(inner, &path[1..]);
+                            }
+                        }
+                    }
+                }
+                None
+            }
+            let mut lean = String::new();
+            writeln!(lean, "/- GENERATED by /verif/rs2lean (holds.rs) from the compiler-expanded source: per function, every shared cell whose guard is alive while an effect call is made (cell, how the guard is held, the calls) — do not edit. -/").unwrap();
+            writeln!(lean, "namespace Rx.Gen.Holds\n").unwrap();
+            for (name, module) in table::HOLDS {
+                let path: Vec<&str> = module.split("::").collect();
+                match find(&file.items, &path) {
+                    Some(its) => {
+                        let found = holds::analyse_items(its);
+                        writeln!(lean, "/-- src/{}.rs -/\ndef {} : List (String × String × String × List String) :=\n  [", module.replace("::", "/"), name).unwrap();
+                        let rows: Vec<String> = found
+                            .iter()
+                            .map(|f| format!("   (\"{}\", \"{}\", \"{}\", [{}])", lean_str(&f.func), lean_str(&f.cell.replace(' ', "")), f.kind, f.effects.iter().map(|e| format!("\"{}\"", lean_str(e))).collect::<Vec<_>>().join(", ")))
+                            .collect();
+                        writeln!(lean, "{}\n  ]\n", rows.join(",\n")).unwrap();
+                    }
+                    None => {
+                        failed += 1;
+                        writeln!(lean, "-- TRANSLATION FAILED: module {} not found in the expanded source\n", module).unwrap();
+                    }
+                }
+            }
+            writeln!(lean, "end Rx.Gen.Holds").unwrap();
+            let p = out.join("Holds.lean");
+            if std::fs::read_to_string(&p).unwrap_or_default() != lean {
+                std::fs::write(&p, lean).unwrap();
+            }
         }
     }
     // transcription pins: the token text of every item of the files whose Lean model is a HAND transcription
